@@ -223,6 +223,26 @@ pub fn scenarios(tier: Tier) -> Vec<LinkScenario<fn() -> Box<dyn Probe>>> {
             probe: (|| Box::new(UnorderedProbe::new()) as Box<dyn Probe>) as fn() -> Box<dyn Probe>,
         });
     }
+    // a tick budget that the queue exceeds with mixed sizes (message ids inside one packet are not consecutive)
+    for dir in 0..2usize {
+        if tier == Tier::Quick && dir == 0 {
+            continue;
+        }
+        let mut cfg = LinkCfg::base(
+            &format!("2000 B per tick, 900+1200+100 dir{}", dir),
+            vec![Chan::new(0, Kind::Unordered, 100_000, 300)],
+            vec![Chan::new(0, Kind::Unordered, 100_000, 300)],
+        );
+        cfg.bytes_per_tick = 2000;
+        cfg.dt_ms = vec![100];
+        cfg.horizon = 4;
+        cfg.tail = 10;
+        cfg.script = vec![Send { tick: 0, dir, ch: 0, len: 900 }, Send { tick: 0, dir, ch: 0, len: 1200 }, Send { tick: 0, dir, ch: 0, len: 100 }];
+        out.push(LinkScenario {
+            cfg,
+            probe: (|| Box::new(UnorderedProbe::new()) as Box<dyn Probe>) as fn() -> Box<dyn Probe>,
+        });
+    }
     out
 }
 
